@@ -48,17 +48,18 @@ type hist struct {
 	// conns are fasthttp.RequestCtx objects reused across requests exactly like the server reuses
 	// one per keep-alive connection (and pools them between connections): request buffers are
 	// overwritten in place, so anything that kept a reference into them is exposed.
-	conns    []*fasthttp.RequestCtx
-	connR    *gen.Rand                 // which conn serves the next request (nil: scripted via nextConn)
-	nextConn int                       // scripted: 1-based conn of the next request, 0 = fresh RequestCtx
-	pool     chan *fasthttp.RequestCtx // race mode (on the parent): shared pool of reused RequestCtx
-	trace    []string
-	tag      string
-	nid      int
-	stopped  bool
-	faulted  bool // a request ran under a storage read fault and the history went on
-	nontriv  bool
-	sigs     map[string]bool
+	conns     []*fasthttp.RequestCtx
+	connR     *gen.Rand                 // which conn serves the next request (nil: scripted via nextConn)
+	nextConn  int                       // scripted: 1-based conn of the next request, 0 = fresh RequestCtx
+	pool      chan *fasthttp.RequestCtx // race mode (on the parent): shared pool of reused RequestCtx
+	trace     []string
+	tag       string
+	nid       int
+	stopped   bool
+	otherName []string // ids emitted under a name that differs from the configured one only in case
+	faulted   bool     // a request ran under a storage read fault and the history went on
+	nontriv   bool
+	sigs      map[string]bool
 }
 
 func newHist(e *ev.Env, c *ev.Case, cfg cfgT, kinds []string, tag string) *hist {
@@ -97,6 +98,10 @@ func newHist(e *ev.Env, c *ev.Case, cfg cfgT, kinds []string, tag string) *hist 
 	}
 	app.Get("/mw", run)
 	app.Get("/st", run)
+	// store API in a handler in FRONT of the session middleware, same store
+	app.Use("/om", func(c fiber.Ctx) error { return runOuter(c, store, h.cur, h.w) })
+	app.Use("/om", mw)
+	app.Get("/om", run)
 	h.app = app
 	h.d = drive.NewDirect(app)
 	return h
@@ -166,6 +171,9 @@ func (h *hist) buildReq(rq *request) *drive.Req {
 	if rq.MW {
 		dr.URI = "/mw"
 	}
+	if rq.Outer {
+		dr.URI = "/om"
+	}
 	present := rq.Presented != "" || rq.Class == "empty"
 	switch h.cfg.Source {
 	case "cookie":
@@ -174,7 +182,14 @@ func (h *hist) buildReq(rq *request) *drive.Req {
 		}
 	case "header":
 		if present {
-			dr.Hdr = append(dr.Hdr, drive.H{K: h.cfg.Name, V: rq.Presented})
+			name := h.cfg.Name // field names are case-insensitive: vary how the client spells it
+			switch len(h.trace) % 3 {
+			case 1:
+				name = strings.ToLower(name)
+			case 2:
+				name = strings.ToUpper(name)
+			}
+			dr.Hdr = append(dr.Hdr, drive.H{K: name, V: rq.Presented})
 		}
 	case "query":
 		if present {
@@ -207,6 +222,10 @@ func (h *hist) emissions(resp *drive.Resp, now time.Time) []seen {
 			continue
 		}
 		if sc.Name != h.cfg.Name {
+			if strings.EqualFold(sc.Name, h.cfg.Name) && sc.Value != "" {
+				// cookie names are case-sensitive: a client looking for the configured name misses it
+				h.otherName = append(h.otherName, sc.Name+"="+sc.Value)
+			}
 			continue
 		}
 		// A non-empty value is an id handed to the client: Max-Age / Expires have whole-second
@@ -247,13 +266,13 @@ func (h *hist) do(rq *request) bool {
 			e.Stat("probe-abs|"+bucket(w.now, ent.absLo), 1)
 		}
 	}
-	ob := &reqObs{}
+	ob, oob := &reqObs{}, &reqObs{}
 	if h.parent != nil {
 		h.parent.smu.Lock()
 		h.parent.scripts[h.name] = &script{MW: rq.MW, Ops: rq.Ops, Obs: ob}
 		h.parent.smu.Unlock()
 	} else {
-		h.cur = &script{MW: rq.MW, Ops: rq.Ops, Obs: ob}
+		h.cur = &script{MW: rq.MW, Ops: rq.Ops, Obs: ob, Outer: rq.Outer, Pre: rq.Pre, Post: rq.Post, OuterObs: oob}
 	}
 	var resp *drive.Resp
 	line := fmt.Sprintf("%s c%d(%s) %s present=%s:%s", stamp(w.now), rq.Client, cl.kind, map[bool]string{true: "mw", false: "store"}[rq.MW], rq.Class, short(rq.Presented))
@@ -265,6 +284,9 @@ func (h *hist) do(rq *request) bool {
 		ops[i] = o.String()
 	}
 	line += " ops=[" + strings.Join(ops, "; ") + "]"
+	if rq.Outer {
+		line += " OUTER(store API around the middleware) pre=" + fmtOps(rq.Pre) + " post=" + fmtOps(rq.Post)
+	}
 	h.trace = append(h.trace, line)
 	conn := "-"
 	if e.Guard(h.c, "panic|session", h.detail(), func() { resp, conn = h.drive(h.buildReq(rq)) }) {
@@ -279,7 +301,13 @@ func (h *hist) do(rq *request) bool {
 	em := h.emissions(resp, w.now)
 	h.trace[len(h.trace)-1] += fmt.Sprintf(" -> status=%d id=%s fresh=%v data=%v emitted=%s", resp.Status, ob.Start.View.ID, ob.Start.View.Fresh, ob.Start.View.Data, fmtSeen(em))
 	preSt, preWhy := w.status(rq.Presented)
-	j := w.judgeRequest(rq, ob)
+	var j *judge
+	if rq.Outer {
+		j = w.judgeOuter(rq, oob, ob)
+		e.Stat("requests-store-api-around-middleware", 1)
+	} else {
+		j = w.judgeRequest(rq, ob)
+	}
 	if preSt == stEither && w.store != nil {
 		// inside a window the statement does not decide (deadline instant, whole-second rounding
 		// of the memory storage): observed and counted, not judged
@@ -292,6 +320,8 @@ func (h *hist) do(rq *request) bool {
 	if resp.Status != 200 && !j.stop {
 		j.fail(&vio{"api|status-" + fmt.Sprint(resp.Status), "handler response status"})
 	}
+	j.otherName = h.otherName
+	h.otherName = nil
 	j.judgeEmission(em)
 	if !j.stop && h.vs != nil {
 		j.fail(h.checkStore())
@@ -331,6 +361,14 @@ func (h *hist) do(rq *request) bool {
 		}
 	}
 	return true
+}
+
+func fmtOps(ops []op) string {
+	p := make([]string, len(ops))
+	for i, o := range ops {
+		p[i] = o.String()
+	}
+	return "[" + strings.Join(p, "; ") + "]"
 }
 
 func fmtSeen(em []seen) string {
@@ -455,6 +493,14 @@ func (w *world) cmpDataOwner(ent *entry, data map[string]string, id string) *vio
 
 // ---------------------------------------------------------------------------------------------
 // generation
+
+// sourceNames: KeyLookup names. Cookie and query-parameter names are case-sensitive (presented
+// exactly as configured); header names are case-insensitive (presented in varying case).
+var sourceNames = map[string][]string{
+	"cookie": {"sid", "Session_ID", "SID", "appSess"},
+	"query":  {"sid", "SID", "Sess_Id", "sessionToken"},
+	"header": {"X-Session-Id", "x-session-id", "X-SESSION-ID", "X-Sid"},
+}
 
 // oddDurations: timeouts that are not whole seconds (boundary values of the timeout dimension).
 var oddDurations = []time.Duration{time.Millisecond, 500 * time.Millisecond, 999 * time.Millisecond, 1500 * time.Millisecond, 2500 * time.Millisecond}
@@ -768,10 +814,12 @@ func runGenerated(e *ev.Env, c *ev.Case) {
 	r := c.R
 	cfg := genCfg(r)
 	startClock()
+	// connection reuse, key retention, names, faults and mixed-API requests are drawn from their
+	// own stream (c.R stays as it was)
+	xr := gen.Derive(e.Seed, "session-conn", c.ID)
+	cfg.Name = gen.Pick(xr, sourceNames[cfg.Source])
 	h := newHist(e, c, cfg, genKinds(r), r.StringFrom("0123456789abcdef", 6))
 	defer h.close()
-	// connection reuse and key retention are drawn from their own stream (c.R stays as it was)
-	xr := gen.Derive(e.Seed, "session-conn", c.ID)
 	if n := xr.PickW(4, 3, 3); n > 0 {
 		h.useConns(n, xr.Split())
 		e.Stat("histories-with-reused-requestctx", 1)
@@ -791,7 +839,20 @@ func runGenerated(e *ev.Env, c *ev.Case) {
 		h.advance(r, id)
 		mw := apiBias == 0 || (apiBias == 2 && r.Bool())
 		rq := &request{Client: ci, MW: mw, Presented: id, Class: class}
-		if h.vs != nil && id != "" && xr.Chance(1, 8) {
+		if xr.Chance(1, 7) {
+			// both APIs in ONE request: a handler in front of the middleware uses the store API
+			cl := h.clients[ci]
+			rq.Outer, rq.MW = true, true
+			rq.Pre = genSimpleOps(xr, cl, ci, xr.Range(0, 2), false)
+			if xr.Chance(1, 3) {
+				rq.Pre = append(rq.Pre, op{K: "save"})
+			}
+			rq.Ops = genSimpleOps(xr, cl, ci, xr.Range(0, 3), true)
+			rq.Post = genSimpleOps(xr, cl, ci, xr.Range(0, 2), false)
+			if xr.Chance(3, 4) {
+				rq.Post = append(rq.Post, op{K: "save"})
+			}
+		} else if h.vs != nil && id != "" && xr.Chance(1, 8) {
 			// the storage cannot be read while this request presents its id
 			rq.Fault = []string{"get-first", "get-outage"}[xr.Intn(2)]
 			rq.Ops = genFaultOps(xr, h.clients[ci], ci, mw)
